@@ -10,9 +10,9 @@ C43 driver.
      remote = `;`-joined entries, parents first: `<path>|f|<content hex>|<T|F>`, `<path>|l|<target>`, `<path>|d`
               (path = components joined by `/`; `-` = empty directory)
      tree   = the same encoding, in `iter_entries_by_dir` order (without the root)
-     delta  = `<removed>&<renamed>&<kind-changed>&<added>&<modified>`, each `,`-joined (`-` = none):
+     delta  = `<removed>&<renamed>&<kind-changed>&<added>&<copied>&<modified>`, each `,`-joined (`-` = none):
               removed `<path>:<k>`, renamed `<old>:<new>:<T|F changed content>`, kind-changed `<old path>:<path>:<k0>:<k1>`,
-              added / modified `<path>`;  k = f|d|l
+              added / copied / modified `<path>`;  k = f|d|l
   reply: `<error|~> <remote afterwards, same encoding, sorted>`
 
   wf <tree>                      -> `T` / `F`: `treeWF` (the hypothesis of the upload theorems on trees)
@@ -69,7 +69,7 @@ def parseGroup {α : Type} (s : String) (f : String → Option α) : Option (Lis
 
 def parseDelta (s : String) : Option Delta :=
   match s.splitOn "&" with
-  | [rm, rn, kc, ad, md] => do
+  | [rm, rn, kc, ad, cp, md] => do
     let removed ← parseGroup rm fun x => match x.splitOn ":" with
       | [p, k] => do pure (⟨← parsePath p, ← parseKind k⟩ : Removed)
       | _ => none
@@ -80,8 +80,9 @@ def parseDelta (s : String) : Option Delta :=
       | [o, p, k0, k1] => do pure (⟨← parsePath o, ← parsePath p, ← parseKind k0, ← parseKind k1⟩ : KindChanged)
       | _ => none
     let added ← parseGroup ad parsePath
+    let copied ← parseGroup cp parsePath
     let modified ← parseGroup md parsePath
-    pure { removed, renamed, kindChanged, added, modified }
+    pure { removed, renamed, kindChanged, added, copied, modified }
   | _ => none
 
 /-- `<link path>=!` (InvalidURL) or `<link path>=<path the link is created at>` -/
